@@ -154,6 +154,17 @@ def one(ctx: Ctx, cs, pname=None, n_pairs=300, n_big=0, all_pairs=False, derive=
         if check_filter(ctx, kp, d, agrid, E, (a,), (b,), k, case):
             nontriv += 1
         k += 1
+    # structured sets: a category together with one of its own descendants (or its parent) on the exclude side, on the include side,
+    # and on both; siblings; a whole subtree listed member by member
+    nested = [(a_, b_) for a_ in CT.ORDER for b_ in CT.ORDER if a_ != b_ and b_ in CT.closure((a_,))]
+    for a_, b_ in rng.sample(nested, min(len(nested), 14)):
+        other = rng.choice(CT.ORDER)
+        for inc, exc_ in ((None, (a_, b_)), (None, (b_, a_, other)), ((a_, b_), None), ((a_, b_), (b_,)), ((other, a_), (b_, a_)),
+                          (None, tuple(sorted(CT.closure((a_,)))))):
+            if check_filter(ctx, kp, d, agrid, E, inc, exc_, k, case):
+                nontriv += 1
+            k += 1
+            ctx.mon('structured_filter_sets')
     for _ in range(n_big):
         inc = tuple(rng.sample(CT.ORDER, rng.randint(2, 10)))
         exc_ = tuple(rng.sample(CT.ORDER, rng.randint(0, 6)))
